@@ -10,6 +10,7 @@ ASSUMPTIONS = [
     "one-step argument: make_children depends only on the parent's domain/depth/index, so an arbitrary symbolic box stands for an arbitrary cell; 'leaves of any tree tile the domain' follows by induction on expansions (paper argument, DESIGN §C02) together with C03",
     "random split points are arbitrary values of the closed interval [lo, hi] of the cell (end points included)",
     "bit-identity of shared faces is decided structurally: both neighbours hold the same term (same IEEE operations on the same inputs)",
+    "floating point: lemma L-mid (lo <= (lo+hi)/2 <= hi, finite, for finite lo <= hi with |lo|,|hi| <= 2^(emax-1)) and lemma L-kary (np.linspace boundaries ordered, ends bit-exact, shared faces the same term; precondition: step (hi-lo)/K normal) are proved by z3 over FloatingPoint terms obtained by running the real P_node / BinaryPartition / DimensionBinaryPartition / KaryPartition code; quick: binary16 and binary32 (L-mid), binary16 K=2,3 (L-kary); thorough adds binary64 L-mid, binary16 K=4,5 and binary32 K=2,3; binary64 linspace is out of reach of bit-blasting here; boxes with |bound| > 2^(emax-1) overflow the midpoint (finding F-ovf, bound of the claim)",
 ]
 
 
@@ -144,3 +145,21 @@ def run(ctx, cfg):
             if ev[0] == "randint":
                 s = ev[1]
         ctx.check_eq("twin", ch[0].get_domain()[s][1], dom[s][1], "reachability witness: deliberately false")
+
+
+# ---- floating-point lemmas (harness/c02_fp.py): the real code on z3 FloatingPoint proxies
+from harness import c02_fp  # noqa: E402
+
+
+def lemma_specs(tier):
+    return c02_fp.specs(tier)
+
+
+def run_lemma(spec):
+    from sx import shims
+    shims.load_pyxab()
+    return c02_fp.run_lemma(spec)
+
+
+def lemma_replay(result):
+    return c02_fp.replay(result)
